@@ -124,6 +124,8 @@ func (s *verifCfgShape) same(cfg *GCPBalancerConfig) bool {
 // Base case: Build + first resolver update with a symbolic configuration, then a second update.
 func VerifH_init() {
 	cc := &verifCC{fresh: []*verifSC{{id: 100}, {id: 101}, {id: 102}, {id: 103}}, failNew: verifBool("failNew")}
+	cc.limited, cc.okFor = verifBool("factoryDies"), verifInt("okFor")
+	verifAssume(cc.okFor >= 0 && cc.okFor <= 3)
 	gb := newBuilder().Build(cc, balancer.BuildOptions{}).(*gcpBalancer)
 	gb.log = &verifLogger{verbose: verifBool("verbose")}
 	verifAssert(gb.cfg == nil && len(gb.scRefs) == 0 && len(gb.scStates) == 0 && len(gb.scRefList) == 0 && len(gb.affinityMap) == 0, "C03: Build does not start from an empty balancer")
@@ -167,7 +169,11 @@ func VerifH_init() {
 	// C03(a): exactly max(1,minSize) connections after the first non-empty resolver update
 	if canCreate {
 		verifReach("pool created")
-		verifAssert(cc.created == int(wantMin) && len(gb.scRefs) == int(wantMin) && len(gb.scRefList) == int(wantMin) && len(gb.scStates) == int(wantMin), "C03: initial pool size is not max(1,minSize)")
+		wantN := int(wantMin)
+		if cc.limited && cc.okFor < wantN {
+			wantN = cc.okFor // the factory stopped working while the pool was being filled
+		}
+		verifAssert(cc.created == wantN && len(gb.scRefs) == wantN && len(gb.scRefList) == wantN && len(gb.scStates) == wantN, "C03: initial pool size is not max(1,minSize) (or what the factory delivered before it started failing)")
 		for i := 0; i < 4; i++ {
 			if i < cc.created {
 				verifAssert(cc.fresh[i].connects >= 1 && cc.fresh[i].addrTag == verifAddrTag(addrs), "C03,C20: initial connection not connecting to the resolved addresses")
@@ -260,8 +266,8 @@ func VerifH_init() {
 		got2, has2 := gb.methodCfg[probe]
 		verifAssert(has2 == has && got2 == got, "C17: method table changed by a later resolver update")
 		verifAssert(sh2.same(cfg2), "C17: the balancer mutated the configuration object of a later update")
-		if canCreate {
-			verifAssert(cc.created == int(wantMin), "C03: second resolver update created connections")
+		if created1 > 0 {
+			verifAssert(cc.created == created1, "C03: second resolver update created connections")
 		} else {
 			verifAssert(cc.created <= created1+1, "C03: re-creating an empty pool created more than one connection")
 		}
